@@ -2,11 +2,15 @@ From Coq Require Import List Arith PArith Bool Lia.
 Import ListNotations.
 
 Definition tok := positive.                      (* an opaque stored value: array / scalar / string *)
-Inductive name := Nm (tag : positive) | NmI (tag : positive) (i : nat).      (* "points" | "bound_3" *)
+Inductive name := Nm (tag : positive) | NmI (tag : positive) (i : nat)      (* "points" | "bound_3" *)
+  | NmK (key : positive) (i : nat)                (* emulator attribute "<key>_<i>" of network i *)
+  | NmKI (tag : positive) (k i : nat).            (* "coefs_<k>_<i>" *)
 Definition name_eqb (a b : name) : bool :=
   match a, b with
   | Nm x, Nm y => Pos.eqb x y
   | NmI x i, NmI y j => Pos.eqb x y && Nat.eqb i j
+  | NmK x i, NmK y j => Pos.eqb x y && Nat.eqb i j
+  | NmKI x k i, NmKI y l j => Pos.eqb x y && Nat.eqb k l && Nat.eqb i j
   | _, _ => false
   end.
 Lemma name_eqb_refl a : name_eqb a a = true.
